@@ -398,6 +398,77 @@ example : (step init (.arrive d1 none)).isSome = true ∧ anyMatch init.eps d1 =
 example : ∃ s s1, runActions init [.newEndpoint .dtls, .newEndpoint .srtp] = some s ∧
     step s (.arrive d1 (some 0)) = some s1 := ⟨_, _, rfl, rfl⟩
 
+/-! ### while a creator is inside NewEndpoint's critical section
+
+  (`lstep`: the same system with `m.lock` explicit around the registration + flush section, whose MatchFunc
+  calls are supplied by the caller and may take arbitrarily long.) -/
+
+/-- the explicit-lock system is the core system: its states are reachable states of `step`, so every theorem
+    above holds for them -/
+theorem C27_locked_runs_are_core_runs {s : LSt} (h : LReachable s) : Reachable s.st := by
+  induction h with
+  | init => exact Reachable.init
+  | step a _ hs ih =>
+    cases a with
+    | enter c m =>
+      simp only [lstep] at hs
+      split at hs
+      · cases hs
+      · simp only [Option.some.injEq] at hs; subst hs; exact ih
+    | matchCall c =>
+      simp only [lstep] at hs
+      split at hs
+      · split at hs
+        · simp only [Option.some.injEq] at hs; subst hs; exact ih
+        · cases hs
+      · cases hs
+    | leave c =>
+      simp only [lstep] at hs
+      split at hs
+      · split at hs
+        · simp only [Option.map_eq_some_iff] at hs
+          obtain ⟨st, hst, rfl⟩ := hs
+          exact Reachable.step _ ih hst
+        · cases hs
+      · cases hs
+    | free a =>
+      simp only [lstep] at hs
+      split at hs
+      · cases hs
+      · simp only [Option.map_eq_some_iff] at hs
+        obtain ⟨st, hst, rfl⟩ := hs
+        exact Reachable.step _ ih hst
+
+/-- While a creator is between registering its endpoint and the end of the pending flush, no datagram can be
+    dispatched (no lookup of a non-empty datagram is enabled), no other endpoint can be created or removed and
+    the Mux cannot be closed: the window in which a later datagram could overtake the queued ones does not exist. -/
+theorem C27_no_dispatch_while_creator_inside (s : LSt) (hh : s.holder.isSome = true) :
+    (∀ (d : Pkt) (target : Option Nat), d ≠ [] → lstep s (.free (.arrive d target)) = none) ∧
+    (∀ (c : Nat) (m : Matcher), lstep s (.enter c m) = none) ∧
+    (∀ m, lstep s (.free (.newEndpoint m)) = none) ∧ (∀ k, lstep s (.free (.remove k)) = none) ∧
+    lstep s (.free .muxClose) = none := by
+  refine ⟨?_, ?_, ?_, ?_, ?_⟩
+  · intro d target hd
+    have : d.isEmpty = false := by cases d with | nil => exact absurd rfl hd | cons _ _ => rfl
+    simp [lstep, hh, Action.takesLock, this]
+  · intro c m
+    cases hs : s.holder with
+    | none => simp [hs] at hh
+    | some x => simp [lstep, hs]
+  · intro m; simp [lstep, hh, Action.takesLock]
+  · intro k; simp [lstep, hh, Action.takesLock]
+  · simp [lstep, hh, Action.takesLock]
+
+-- non-vacuity: two datagrams wait, a creator enters (2 MatchFunc calls to come); a third datagram cannot be
+-- looked up until the creator has left, and then follows the two queued ones
+example : ∃ s, (lstep linit (.free (.arrive d1 none))).bind (fun s => (lstep s (.free (.arrive d2 none))).bind
+      (fun s => lstep s (.enter 1 .dtls))) = some s ∧ s.holder.isSome = true ∧
+    lstep s (.free (.arrive [22, 0, 3] (some 0))) = none ∧ lstep s (.free (.arrive [22, 0, 3] none)) = none ∧
+    ((lstep s (.matchCall 1)).bind (fun s => (lstep s (.matchCall 1)).bind (fun s => (lstep s (.leave 1)).bind
+      (fun s => (lstep s (.free (.arrive [22, 0, 3] (some 0)))).bind (fun s => lstep s (.free .write)))))).map
+        (fun s => s.st.eps.map (fun e => e.got.map (·.seq))) = some [[0, 1, 2]] :=
+  ⟨_, rfl, by decide, by decide, by decide, by decide⟩
+
 /-! ### the schedule the repair removed (documentation)
 
   With the unrepaired `NewEndpoint` (register under the lock, flush in a goroutine) the following
